@@ -46,10 +46,10 @@ class DiscreteTimeDomainSequence(DiscreteTimeDomain, Sequence):
         vals = self.vals
         N = len(vals)
         for ni in range(N):
-            result = z**(-ni) * vals[ni].expr
+            result = z**(-self.n[ni]) * vals[ni].expr
             result = result.change(result, domain='Z')
             results.append(result)
-        return self.change(results, domain='Z')
+        return self.change(results, domain='Z', ni=self.n)
 
 
 def nseq(arg, ni=None, origin=None):
